@@ -1,8 +1,8 @@
 #!/bin/bash
-# runall.sh <tier>: run every check once, print one line each (exit code, wall seconds).
+# runall.sh <tier>: run every check (or those in $CHECKS) once, print one line each (exit code, wall seconds).
 TIER=${1:-quick}
 cd "$(dirname "$0")/.."
-for c in C01 C02 C03 C04 C05 C06 C07 C08 C09 C10 C11 C12 C13 C14 C15 C16 C17 C18; do
+for c in ${CHECKS:-C01 C02 C03 C04 C05 C06 C07 C08 C09 C10 C11 C12 C13 C14 C15 C16 C17 C18}; do
   t0=$(date +%s)
   ./vcheck $c --tier $TIER > /tmp/runall_$c.log 2>&1; rc=$?
   t1=$(date +%s)
